@@ -153,10 +153,11 @@ def attr_of_arg(fn, arg):
 ALL_FIELDS = []
 
 
-def _classify_groups(pattern):
+def _classify_groups(pattern, verbose=False):
     """{group number: role} for the capture groups of the format-spec regex, from the regex's own parse tree (stdlib parser; nothing is matched)."""
     import re._parser as sp
-    tree = sp.parse(pattern)
+    import re as _re
+    tree = sp.parse(pattern, _re.VERBOSE if verbose else 0)
     roles = {}
 
     def lits(items):
@@ -219,7 +220,17 @@ def spec_parse_obligation(ck):
     tf = ck.index.mod('vermouth/truncating_formatter.py')
     fn = tf.func('TruncFormatter.format_field')
     cls = tf.cls('TruncFormatter')
-    pats = [st.value.value for st in cls.body if isinstance(st, ast.Assign) and u(st.targets[0]) == 'format_spec_re' and isinstance(st.value, ast.Constant) and isinstance(st.value.value, str)]
+    # the pattern: a string bound to format_spec_re, compiled in place or in a second statement, with or without re.VERBOSE
+    pats, verbose = [], False
+    for st in cls.body:
+        if isinstance(st, ast.Assign) and u(st.targets[0]) == 'format_spec_re':
+            v = st.value
+            if isinstance(v, ast.Call) and (call_name(v) or '').split('.')[-1] == 'compile' and v.args:
+                flags = ' '.join(u(a) for a in v.args[1:]) + ' ' + ' '.join(u(k.value) for k in v.keywords)
+                verbose = verbose or 'VERBOSE' in flags or flags.strip() in ('re.X', 'X')
+                v = v.args[0]
+            if isinstance(v, ast.Constant) and isinstance(v.value, str):
+                pats.append(v.value)
     fields = None
     for st in tf.tree.body:
         if isinstance(st, ast.Assign) and u(st.targets[0]) == 'FormatSpec' and isinstance(st.value, ast.Call) and len(st.value.args) == 2:
@@ -228,7 +239,7 @@ def spec_parse_obligation(ck):
     groups = [c for c in ast.walk(fn) if isinstance(c, ast.Call) and call_attr(c) == 'group' and 'format_spec_re' in u(c.func.value)]
     ck.need(len(pats) == 1 and fields and len(groups) == 1, 'TruncFormatter: format_spec_re / FormatSpec / the .group(..) call were not found')
     try:
-        roles = _classify_groups(pats[0])
+        roles = _classify_groups(pats[0], verbose)
     except Exception as err:  # pylint: disable=broad-except
         ck.need(False, 'TruncFormatter.format_spec_re could not be parsed: {}'.format(err))
     idx = [try_fold(a, default=None) for a in groups[0].args]
